@@ -282,6 +282,13 @@ def discharge_site(prog, ctx, n, site, fa, tb, eng, reviewed, used_reviews, nume
                     return "rule", "gen_range over the constant non-empty range %s..%s" % (lo, hi)
             if a[0] == "call" and a[1].endswith("RangeInclusive::<Idx>::new"):
                 lo, hi = const_value(a[2][0]), const_value(a[2][1])
+                if not (isinstance(lo, int) and isinstance(hi, int)):
+                    # bounds written with named constants / negation: fold them
+                    from terms import fold, CannotFold
+                    try:
+                        lo, hi = fold(a[2][0], {}), fold(a[2][1], {})
+                    except CannotFold:
+                        pass
                 if isinstance(lo, int) and isinstance(hi, int) and lo <= hi:
                     return "rule", "gen_range over the constant non-empty range %s..=%s" % (lo, hi)
         if "sync::atomic::Atomic" in nme and nme.split("::")[-1] in ("load", "store"):
